@@ -17,7 +17,8 @@ PI_D = Decimal("3.14159265358979323846264338327950288419716939937510582097494")
 C_D = Decimal(299792458)
 IMPORTS = ("From SpdVerif Require Import Base.Rx Base.GridOps Gen.Grid Model.SpectrumSetup Gen.Spectrum Model.Spectrum Proofs.C07_support Proofs.C07_counts Proofs.C07_tac.\n"
            "Import ListNotations.\n")
-IN_WINDOW_TAGS = ("center", "center0", "rand_in")
+IN_WINDOW_TAGS = ("center", "center0", "rand_in", "wide_in", "below_thr", "thr=alpha", "thr=alpha+", "thr=alpha-",
+                  "hist_pump_diag", "hist_centre", "hist_rand")
 
 
 def fh(s):
@@ -120,6 +121,7 @@ def oracle_sup(ctx, o):
            "threshold": fh(o["thr"]), "alpha": fh(o.get("alpha")),
            "values": {f: ([fh(x) for x in o[f]] if isinstance(o.get(f), list) else fh(o.get(f))) for f in ZERO_FIELDS if o.get(f) is not None}}
     if o.get("panic") or o.get("panic_spectrum"):
+        ctx.count("sup:panic:" + o["tag"].split("|")[0])
         if o["tag"] in IN_WINDOW_TAGS or exact_outside(o):
             ctx.violation("S5", f"spectrum evaluation panicked at ({fh(o['ws'])!r}, {fh(o['wi'])!r}): {o.get('panic') or o.get('panic_spectrum')}",
                           {"kind": "sup_panic", "setup": o["setup"], "tag": o["tag"]}, rep)
@@ -141,7 +143,17 @@ def oracle_sup(ctx, o):
         exp = [alpha * pm[0], alpha * pm[1]]
 
         def same(x, y):
-            return (x != x and y != y) or x == y or abs(x - y) <= 4e-16 * max(abs(x), abs(y))
+            # the phase-matching value comes from a SECOND call; simpson2d / the 1-D rules are rayon parallel sums whose
+            # association depends on scheduling, so only agreement to 1e-12 is required.  NaN never counts as agreement.
+            if x != x or y != y:
+                return False
+            return x == y or abs(x - y) <= 1e-12 * max(abs(x), abs(y))
+        if any(v != v for v in raw + exp):
+            ctx.count("sup:nan_product:" + o["tag"].split("|")[0])
+            if o["tag"] in IN_WINDOW_TAGS:
+                ctx.violation("S5", f"NaN in jsa_raw / phase matching inside the transmission window at ({fh(o['ws'])!r}, {fh(o['wi'])!r})",
+                              {"kind": "finite", "setup": o["setup"]}, rep)
+            return
         if not (same(raw[0], exp[0]) and same(raw[1], exp[1])):
             rep.update({"phasematch": pm, "expected": exp})
             ctx.violation("S5", f"jsa_raw {raw} is not envelope {alpha!r} x phasematching {pm} on the support",
@@ -213,6 +225,36 @@ def oracle_scale(ctx, o):
         bad.append(f"HOM visibility changes: {fh(B['hom_vis'])!r} -> {fh(S['hom_vis'])!r}")
     if fh(S["hom_dt"]) != fh(B["hom_dt"]):
         bad.append("HOM time delay depends on power/deff")
+    rb, rs_ = B.get("ranges"), S.get("ranges")
+    if rb and rs_:
+        def arr(v):
+            return [fh(x) for x in v]
+        for nm in rb["lin"]:
+            xb, xs = arr(rb["lin"][nm]), arr(rs_["lin"][nm])
+            if len(xb) != len(xs) or not xb or any(rel(y, k * x) > 1e-12 for x, y in zip(xb, xs)):
+                i = next((i for i, (x, y) in enumerate(zip(xb, xs)) if rel(y, k * x) > 1e-12), 0)
+                bad.append(f"{nm}[{i}]: {xs[i] if xs else None!r} vs {k!r} x {xb[i] if xb else None!r}")
+        for nm in rb["amp"]:
+            xb, xs = arr(rb["amp"][nm]), arr(rs_["amp"][nm])
+            if len(xb) != len(xs) or not xb or any(rel(y, c * x) > 1e-12 for x, y in zip(xb, xs)):
+                bad.append(f"{nm} does not scale with sqrt(a)|b|")
+        for nm in rb["inv"]:
+            xb, xs = arr(rb["inv"][nm]), arr(rs_["inv"][nm])
+            if "hom" in nm or ("two_source" in nm and "rates" in nm):
+                # rates are 1/2 - (interference term): compare the interference term relatively (a rate close to 1/2 hides it)
+                def differs(x, y):
+                    return not (finite(x) and finite(y)) or abs(x - y) > 1e-6 * max(abs(0.5 - x), abs(0.5 - y)) + 1e-13
+            elif "two_source" in nm:
+                def differs(x, y):
+                    return not (finite(x) and finite(y)) or abs(x - y) > 1e-6 * max(abs(x), abs(y)) + 1e-12
+            else:
+                def differs(x, y):
+                    return not (finite(x) and finite(y)) or abs(x - y) > 1e-11 * max(1.0, abs(x))
+            if len(xb) != len(xs) or not xb or any(differs(x, y) for x, y in zip(xb, xs)):
+                i = next((i for i, (x, y) in enumerate(zip(xb, xs)) if differs(x, y)), 0)
+                bad.append(f"{nm}[{i}] changes: {xb[i] if xb else None!r} -> {xs[i] if xs else None!r}")
+        rep["ranges_base"] = {g: {nm: [fh(x) for x in v][:6] for nm, v in rb[g].items()} for g in rb}
+        rep["ranges_scaled"] = {g: {nm: [fh(x) for x in v][:6] for nm, v in rs_[g].items()} for g in rs_}
     if bad:
         ctx.violation("S5", f"scaling power by {a:g} and deff by {b:g} ({o['setup']}): " + "; ".join(bad[:4]),
                       {"kind": "scaling", "setup": o["setup"], "fields": sorted({x.split(':')[0].split(' ')[0] for x in bad})}, rep)
